@@ -85,7 +85,7 @@ def check(tier: str) -> Report:
             mx = base + rng.choice([0.0, rng.uniform(0, 40.0), 20.0, 1e300])
             attempt = rng.choice([rng.randint(1, 12), rng.randint(1000, 1100), rng.randint(1700, 1800),
                                   rng.randint(1, 10 ** 7), rng.randint(1020, 1030), rng.randint(2000, 6000)])
-            prev = rng.choice([None, 0.0, rng.uniform(0, 50.0), 1e9])
+            prev = rng.choice([None, 0.0, rng.uniform(0, 50.0), 1e9, 6e307, 1.7e308])
             u = rng.choice([0.0, 1.0, rng.random()])
             S.random.uniform = lambda a, b, _u=u: a + (b - a) * _u
             evaluations += 1
@@ -114,6 +114,45 @@ def check(tier: str) -> Report:
                 viol("C18:value-outside-envelope", f"C18/{name}/envelope",
                      {"base_s": base, "max_s": mx, "attempt": attempt, "prev": prev, "draw": u,
                       "returned_s": repr(r), "envelope": env})
+        # ---- adaptive() used by two threads: every line-level interleaving of a strategy call
+        # with an outcome report (deterministic scheduler of C17) - no exception, value in range
+        from .sched import SchedLock, Scheduler, explore
+        ctx0 = S.BackoffContext(attempt=1, classification=Classification(ErrorClass.TRANSIENT),
+                                prev_sleep_s=None, remaining_s=None, cause="exception")
+        thread_runs = 0
+        for second in ("record_failure", "record_success", "call"):
+            def make(second=second):
+                ad = S.adaptive(lambda ctx: 1.0, window_s=10.0, target_success=0.5, min_multiplier=1.0,
+                                max_multiplier=3.0, clock=lambda: 0.0)
+                for i in range(4):
+                    (ad.record_failure(ErrorClass.TRANSIENT) if i % 2 else ad.record_success())
+                sched = Scheduler({S.__file__})
+                locks = [k for k, v in vars(ad).items()
+                         if hasattr(v, "acquire") and hasattr(v, "release") and hasattr(v, "__enter__")]
+                for k in locks:
+                    setattr(ad, k, SchedLock(sched))
+                progs = [lambda: ad(ctx0),
+                         (lambda: ad(ctx0)) if second == "call" else
+                         (lambda: ad.record_failure(ErrorClass.TRANSIENT)) if second == "record_failure" else
+                         (lambda: ad.record_success())]
+
+                def collect(sc, deadlock, choices):
+                    return {"deadlock": bool(deadlock), "errors": [repr(w.error) for w in sc.workers if w.error],
+                            "values": [w.results for w in sc.workers], "schedule": choices}
+                return sched, progs, collect
+            for h in explore(make, 2, 300 if tier == "quick" else 5000):
+                thread_runs += 1
+                evaluations += 1
+                v0 = h["values"][0]
+                if h["errors"] or h["deadlock"]:
+                    viol("C18:strategy-raises", "C18/adaptive/threads/raises",
+                         {"threads": ["strategy call", second], "errors": h["errors"], "deadlock": h["deadlock"],
+                          "schedule": h["schedule"]})
+                    break
+                if not (isinstance(v0, float) and 1.0 - 1e-12 <= v0 <= 3.0 + 1e-12):
+                    viol("C18:adaptive-multiplier-outside-range", "C18/adaptive/threads/multiplier-range",
+                         {"threads": ["strategy call", second], "returned": repr(v0), "schedule": h["schedule"]})
+                    break
         # ---- adaptive(): random valid parameterisations and histories -----------------
         for _ in range(600 if tier == "quick" else 30000):
             ts = rng.choice([1.0, 0.9, 0.5, 1e-9, 1e-17, 5e-324, rng.random() or 0.5])
